@@ -4174,7 +4174,9 @@ pub fn is_arg_by_pointer(resolve: &Resolve, ty: &Type) -> bool {
 }
 
 pub fn to_c_ident(name: &str) -> String {
-    match name {
+    // Keywords are matched against the final snake_case spelling so that WIT
+    // names such as `LONG` or `const-cast` are escaped as well.
+    match name.to_snake_case().as_str() {
         // Escape C and C++ keywords.
         // Source: https://en.cppreference.com/w/cpp/keyword
         "alignas" => "alignas_".into(),
@@ -4243,6 +4245,7 @@ pub fn to_c_ident(name: &str) -> String {
         "public" => "public_".into(),
         "reflexpr" => "reflexpr_".into(),
         "register" => "register_".into(),
+        "restrict" => "restrict_".into(),
         "reinterpret_cast" => "reinterpret_cast_".into(),
         "requires" => "requires_".into(),
         "return" => "return_".into(),
@@ -4263,6 +4266,7 @@ pub fn to_c_ident(name: &str) -> String {
         "try" => "try_".into(),
         "typedef" => "typedef_".into(),
         "typeid" => "typeid_".into(),
+        "typeof" => "typeof_".into(),
         "typename" => "typename_".into(),
         "union" => "union_".into(),
         "unsigned" => "unsigned_".into(),
@@ -4283,7 +4287,7 @@ pub fn to_c_ident(name: &str) -> String {
         "stdin" => "stdin_".into(),
         "stdout" => "stdout_".into(),
         "stderr" => "stderr_".into(),
-        s => s.to_snake_case(),
+        s => s.to_string(),
     }
 }
 
